@@ -129,4 +129,73 @@ theorem dtSelectors_spec (fwd : Bool) (e : Info × Info) :
     dtSendCont fwd = some (if fwd then .first else .second) ∧ dtSendTypeCont fwd = dtSendCont fwd := by
   cases fwd <;> refine ⟨?_, ?_, ?_, ?_, ?_, ?_⟩ <;> rfl
 
+/-! ### the counting loops of `MessageSizeCalculator<Data,VariableSize>`, the gatherers and the scatterers -/
+
+/-- a loop `for(v = start; cond; ++v)` that starts at 0, runs while `v` is below the bound and stops at the bound visits
+    `0, …, n-1` -/
+theorem forIdx_canonical (start : Nat) (cond : Nat → Nat → Bool) (n : Nat) (hs : start = 0)
+    (h1 : ∀ i, i < n → cond i n = true) (h2 : cond n n = false) : Gen.forIdx start cond n = List.range n := by
+  subst hs
+  unfold Gen.forIdx
+  have hf : ((List.range (n + 2)).filter fun i => decide (0 ≤ i)) = List.range (n + 2) := by simp
+  rw [hf]
+  have hr : List.range (n + 2) = List.range n ++ [n, n + 1] := by
+    rw [List.range_succ, List.range_succ]
+    simp
+  rw [hr, List.takeWhile_append_of_pos]
+  · simp [List.takeWhile, h2]
+  · intro a ha
+    exact h1 a (List.mem_range.mp ha)
+
+theorem loops_spec (n : Nat) :
+    Gen.loop_sizeVarI n = List.range n ∧ Gen.loop_gatherOneI n = List.range n ∧ Gen.loop_gatherVarI n = List.range n ∧
+    Gen.loop_gatherVarJ n = List.range n ∧ Gen.loop_scatterOneI n = List.range n ∧ Gen.loop_scatterVarI n = List.range n ∧
+    Gen.loop_scatterVarJ n = List.range n := by
+  refine ⟨?_, ?_, ?_, ?_, ?_, ?_, ?_⟩ <;>
+    exact forIdx_canonical _ _ n rfl (by intro i hi; simp <;> omega) (by simp <;> omega)
+
+theorem map_getD_range (l : List Nat) : (List.range l.length).map (fun i => l.getD i 0) = l := by
+  apply List.ext_getElem
+  · simp
+  · intro i h1 h2
+    simp [h2]
+
+/-- the (local index, component) slots as the nested loops `for i … for j …` over `info[i]` produce them -/
+def slotsLoop (I J : Nat → List Nat) (cs : Nat → Nat) (info : Info) : List (Nat × Nat) :=
+  (I info.size).flatMap fun i => (J (cs (info.idx.getD i 0))).map fun j => (info.idx.getD i 0, j)
+
+theorem slotsLoop_range (J : Nat → List Nat) (cs : Nat → Nat) (info : Info) :
+    slotsLoop List.range J cs info = info.idx.flatMap fun l => (J (cs l)).map fun j => (l, j) := by
+  unfold slotsLoop Info.size
+  conv => rhs; rw [← map_getD_range info.idx]
+  rw [List.flatMap_map]
+
+theorem sizeLoop_range (cs : Nat → Nat) (info : Info) :
+    ((List.range info.size).map fun i => cs (info.idx.getD i 0)).sum = sizeCalc cs info := by
+  unfold sizeCalc Info.size
+  conv => rhs; rw [← map_getD_range info.idx]
+  rw [List.map_map]
+  rfl
+
+theorem loopsModel_spec (cs : Nat → Nat) (info : Info) :
+    ((Gen.loop_sizeVarI info.size).map fun i => cs (info.idx.getD i 0)).sum = sizeCalc cs info ∧
+    slotsLoop Gen.loop_gatherVarI Gen.loop_gatherVarJ cs info = slots cs info ∧
+    slotsLoop Gen.loop_gatherOneI (fun _ => [0]) cs info = slots (fun _ => 1) info ∧
+    slotsLoop Gen.loop_scatterVarI Gen.loop_scatterVarJ cs info = slots cs info ∧
+    slotsLoop Gen.loop_scatterOneI (fun _ => [0]) cs info = slots (fun _ => 1) info := by
+  have hI1 : Gen.loop_gatherVarI = List.range := funext fun n => (loops_spec n).2.2.1
+  have hJ1 : Gen.loop_gatherVarJ = List.range := funext fun n => (loops_spec n).2.2.2.1
+  have hI2 : Gen.loop_gatherOneI = List.range := funext fun n => (loops_spec n).2.1
+  have hI3 : Gen.loop_scatterVarI = List.range := funext fun n => (loops_spec n).2.2.2.2.2.1
+  have hJ3 : Gen.loop_scatterVarJ = List.range := funext fun n => (loops_spec n).2.2.2.2.2.2
+  have hI4 : Gen.loop_scatterOneI = List.range := funext fun n => (loops_spec n).2.2.2.2.1
+  have one : (fun l : Nat => ([0] : List Nat).map fun j => (l, j)) = fun l => (List.range 1).map fun j => (l, j) := by
+    funext l; simp [List.range_succ]
+  refine ⟨?_, ?_, ?_, ?_, ?_⟩
+  · rw [(loops_spec info.size).1]; exact sizeLoop_range cs info
+  · rw [hI1, hJ1, slotsLoop_range]; rfl
+  · rw [hI2, slotsLoop_range, one]; rfl
+  · rw [hI3, hJ3, slotsLoop_range]; rfl
+  · rw [hI4, slotsLoop_range, one]; rfl
+
 end DV.C05
